@@ -96,7 +96,7 @@ Proof.
 Qed.
 
 (* ---------------------------------------------------------------- both sides fail *)
-Lemma sim_err : forall c w t o, Rep c w t -> SInv t -> hname_ok (op_link_name o) ->
+Lemma sim_err : forall c w t o, Rep c w t -> SInv t -> name_cond c (op_link_name c o) ->
   is_ok (snd (step c w o)) = false -> is_ok (snd (spec_step c t o)) = false ->
   is_ok (snd (step c w o)) = is_ok (snd (spec_step c t o)) /\ Rep c (fst (step c w o)) (fst (spec_step c t o)) /\ SInv (fst (spec_step c t o)).
 Proof.
@@ -149,7 +149,7 @@ Proof.
   2:{ left. split; [|eapply noparent_spec_err; eassumption]. subst mb. unfold finish_create, link_to_parent.
       assert (X : parent_group (pre_of c w nd) (render pcs) = None).
       { rewrite <- PG. apply parent_group_groups. destruct nd; reflexivity. }
-      rewrite X. reflexivity. }
+      rewrite X. destruct (strict_names c && negb (heap_name_ok n)); reflexivity. }
   pose proof (parent_agree c w t pcs R I Hpcs) as PA.
   destruct (sresolve (s_nodes t) 0 pcs) as [g0|] eqn:Sr; [|congruence].
   destruct (alookup g0 (s_nodes t)) as [[ch| |]|] eqn:L; try congruence.
@@ -172,7 +172,7 @@ Definition SimGoal (c : cfg) (w : wstate) (t : stree) (o : op) : Prop :=
   is_ok (snd (step c w o)) = is_ok (snd (spec_step c t o)) /\
   Rep c (fst (step c w o)) (fst (spec_step c t o)) /\ SInv (fst (spec_step c t o)).
 
-Lemma sim_from_body : forall c w t o mb, Rep c w t -> SInv t -> hname_ok (op_link_name o) ->
+Lemma sim_from_body : forall c w t o mb, Rep c w t -> SInv t -> name_cond c (op_link_name c o) ->
   step_body c w o = mb ->
   ((is_ok (snd mb) = false /\ is_ok (snd (spec_step c t o)) = false) \/
    (snd mb = Ok /\ snd (spec_step c t o) = Ok /\
@@ -190,14 +190,23 @@ Qed.
 Lemma link_name_render : forall pcs n, names_ok_l (pcs ++ [n]) -> snd (parse_path (render (pcs ++ [n]))) = n.
 Proof. intros. rewrite parse_path_render by assumption. reflexivity. Qed.
 
+Lemma trim_render : forall pcs n, names_ok_l (pcs ++ [n]) -> trim_suffix_slash (render (pcs ++ [n])) = render (pcs ++ [n]).
+Proof.
+  intros pcs n H. destruct (names_ok_snoc _ _ H) as [_ Hn]. apply name_ok_iff in Hn. destruct Hn as (A & _ & B).
+  rewrite render_snoc. replace (render pcs ++ SL :: n) with ((render pcs ++ [SL]) ++ n) by (rewrite <- app_assoc; reflexivity).
+  apply trim_suffix_nonslash; assumption.
+Qed.
+Lemma if_same : forall A (b : bool) (x : A), (if b then x else x) = x.
+Proof. intros A [|] x; reflexivity. Qed.
+
 Lemma step_mkgroup_eq : forall c w pcs n, names_ok_l (pcs ++ [n]) ->
   step_body c w (MkGroup (render (pcs ++ [n]))) =
   if negb (parent_registered w (render pcs)) then (w, Err ENoParent)
   else finish_create c w (pre_of c w (SG [])) (render (pcs ++ [n])) (render pcs) n true.
 Proof.
   intros c w pcs n H. cbn [step_body]. unfold create_group.
-  rewrite validate_group_render' by (assumption || apply snoc_nonempty). rewrite parse_path_render by assumption.
-  cbn [negb]. reflexivity.
+  rewrite validate_group_render' by (assumption || apply snoc_nonempty). cbn [negb]. cbv zeta.
+  rewrite trim_render by assumption. rewrite if_same. rewrite parse_path_render by assumption. reflexivity.
 Qed.
 
 Lemma step_mkdataset_eq : forall c w pcs n, names_ok_l (pcs ++ [n]) ->
@@ -229,14 +238,15 @@ Qed.
 Lemma finish_noparent : forall c w wpre p parent nm isg, groups wpre = groups w -> parent_group w parent = None ->
   is_ok (snd (finish_create c w wpre p parent nm isg)) = false.
 Proof.
-  intros. unfold finish_create, link_to_parent. rewrite (parent_group_groups _ _ _ H), H0. reflexivity.
+  intros. unfold finish_create, link_to_parent. rewrite (parent_group_groups _ _ _ H), H0.
+  destruct (strict_names c && negb (heap_name_ok nm)); reflexivity.
 Qed.
 
 Lemma sim_mkgroup : forall c w t p, Rep c w t -> SInv t -> path_ok p = true -> SimGoal c w t (MkGroup p).
 Proof.
   intros c w t p R I H. destruct (path_ok_snoc p H) as (pcs & n & Sp & -> & Hok).
-  assert (Hnm : hname_ok (op_link_name (MkGroup (render (pcs ++ [n]))))).
-  { cbn [op_link_name]. rewrite link_name_render by assumption. apply name_ok_hname. apply names_ok_snoc in Hok. tauto. }
+  assert (Hnm : name_cond c (op_link_name c (MkGroup (render (pcs ++ [n]))))).
+  { right. unfold op_link_name. cbn [op_path_eff]. rewrite ?trim_render by assumption. rewrite ?if_same. rewrite link_name_render by assumption. apply name_ok_hname. apply names_ok_snoc in Hok. tauto. }
   eapply sim_from_body; try eassumption; [apply step_mkgroup_eq; assumption|]. cbn [spec_step].
   rewrite parent_registered_eq. destruct (parent_group w (render pcs)) as [g|] eqn:PG; cbn [negb].
   - apply (finish_sim c w t (SG []) pcs n R I Hok). reflexivity.
@@ -246,8 +256,8 @@ Qed.
 Lemma sim_mkdataset : forall c w t p, Rep c w t -> SInv t -> path_ok p = true -> SimGoal c w t (MkDataset p).
 Proof.
   intros c w t p R I H. destruct (path_ok_snoc p H) as (pcs & n & Sp & -> & Hok).
-  assert (Hnm : hname_ok (op_link_name (MkDataset (render (pcs ++ [n]))))).
-  { cbn [op_link_name]. rewrite link_name_render by assumption. apply name_ok_hname. apply names_ok_snoc in Hok. tauto. }
+  assert (Hnm : name_cond c (op_link_name c (MkDataset (render (pcs ++ [n]))))).
+  { right. unfold op_link_name. cbn [op_path_eff]. rewrite ?trim_render by assumption. rewrite ?if_same. rewrite link_name_render by assumption. apply name_ok_hname. apply names_ok_snoc in Hok. tauto. }
   eapply sim_from_body; try eassumption; [apply step_mkdataset_eq; assumption|]. cbn [spec_step].
   apply (finish_sim c w t SD pcs n R I Hok). exact Logic.I.
 Qed.
@@ -255,8 +265,8 @@ Qed.
 Lemma sim_softlink : forall c w t p q, Rep c w t -> SInv t -> path_ok p = true -> SimGoal c w t (SoftLink p q).
 Proof.
   intros c w t p q R I H. destruct (path_ok_snoc p H) as (pcs & n & Sp & -> & Hok).
-  assert (Hnm : hname_ok (op_link_name (SoftLink (render (pcs ++ [n])) q))).
-  { cbn [op_link_name]. rewrite link_name_render by assumption. apply name_ok_hname. apply names_ok_snoc in Hok. tauto. }
+  assert (Hnm : name_cond c (op_link_name c (SoftLink (render (pcs ++ [n])) q))).
+  { right. unfold op_link_name. cbn [op_path_eff]. rewrite ?trim_render by assumption. rewrite ?if_same. rewrite link_name_render by assumption. apply name_ok_hname. apply names_ok_snoc in Hok. tauto. }
   eapply sim_from_body; try eassumption; [apply step_softlink_eq; assumption|]. cbn [spec_step].
   destruct (negb (validate_soft_target q)); [left; split; reflexivity|].
   rewrite Sp, unsnoc_snoc.
@@ -282,8 +292,8 @@ Lemma sim_hardlink : forall c w t p q, Rep c w t -> SInv t ->
 Proof.
   intros c w t p q R I Hp Hq Ht. destruct (path_ok_snoc p Hp) as (pcs & n & Sp & -> & Hok).
   destruct (path_ok_snoc q Hq) as (qp & qn & Sq & -> & Hqok). destruct (names_ok_snoc _ _ Hok) as [Hpcs Hn].
-  assert (Hnm : hname_ok (op_link_name (HardLink (render (pcs ++ [n])) (render (qp ++ [qn]))))).
-  { cbn [op_link_name]. rewrite link_name_render by assumption. apply name_ok_hname. assumption. }
+  assert (Hnm : name_cond c (op_link_name c (HardLink (render (pcs ++ [n])) (render (qp ++ [qn]))))).
+  { right. unfold op_link_name. cbn [op_path_eff]. rewrite link_name_render by assumption. apply name_ok_hname. assumption. }
   eapply sim_from_body; try eassumption; [reflexivity|].
   cbn [step_body spec_step]. unfold create_hard_link.
   rewrite !validate_link_render' by (assumption || apply snoc_nonempty). cbn [negb].
@@ -297,7 +307,7 @@ Proof.
   destruct (r_kind _ _ _ R tid SD Lt) as (o & Ho & Hkd). cbn [skind] in Hkd.
   destruct (parent_group w (render pcs)) as [g|] eqn:PG; cbn [negb].
   2:{ left. split; [reflexivity|]. destruct (noparent_slink_err c w t pcs n tid R I Hok PG) as (e & E). rewrite E. reflexivity. }
-  rewrite Ho. set (o1 := write_refcount o (wrap32 (refcount o + 1))). set (w1 := set_objects w (aset tid o1 (objects w))).
+  rewrite Ho. set (o1 := write_refcount c o (wrap32 (refcount o + 1))). set (w1 := set_objects w (aset tid o1 (objects w))).
   pose proof (parent_agree c w t pcs R I Hpcs) as PA.
   destruct (sresolve (s_nodes t) 0 pcs) as [g0|] eqn:Sr; [|congruence].
   destruct (alookup g0 (s_nodes t)) as [[ch| |]|] eqn:L; try congruence.
